@@ -15,3 +15,18 @@ open Lungo.C17
 #print axioms agree_call
 #print axioms agree_step
 #print axioms Lungo.tie_ApiFlow_apiFlow
+#print axioms inv_init
+#print axioms writeOne_length
+#print axioms applyWrites_length
+#print axioms writeOne_rd
+#print axioms applyWrites_rd
+#print axioms rd_append_left
+#print axioms mem_range'
+#print axioms inv_runFrom
+#print axioms observe_write
+#print axioms rd_append_right_eq
+#print axioms rd_append_cases
+#print axioms set_agree
+#print axioms applyWrites_agree
+#print axioms agree_observe
+#print axioms agree_runFrom
